@@ -283,7 +283,7 @@ func (m *LinearBlockMetadata) VisitAllRegions(handleBlock func(handle BlockAlloc
 				}
 
 				// Process the allocation
-				err := handleBlock(BlockAllocationHandle(suballoc.Offset), suballoc.Offset, suballoc.Size, suballoc.UserData, false)
+				err := handleBlock(BlockAllocationHandle(suballoc.Offset+1), suballoc.Offset, suballoc.Size, suballoc.UserData, false)
 				if err != nil {
 					return err
 				}
@@ -335,7 +335,7 @@ func (m *LinearBlockMetadata) VisitAllRegions(handleBlock func(handle BlockAlloc
 			}
 
 			// Process this allocation
-			err := handleBlock(BlockAllocationHandle(suballoc.Offset), suballoc.Offset, suballoc.Size, suballoc.UserData, false)
+			err := handleBlock(BlockAllocationHandle(suballoc.Offset+1), suballoc.Offset, suballoc.Size, suballoc.UserData, false)
 			if err != nil {
 				return err
 			}
@@ -375,7 +375,7 @@ func (m *LinearBlockMetadata) VisitAllRegions(handleBlock func(handle BlockAlloc
 				}
 
 				// Process this allocation
-				err := handleBlock(BlockAllocationHandle(suballoc.Offset), suballoc.Offset, suballoc.Size, suballoc.UserData, false)
+				err := handleBlock(BlockAllocationHandle(suballoc.Offset+1), suballoc.Offset, suballoc.Size, suballoc.UserData, false)
 				if err != nil {
 					return err
 				}
